@@ -90,4 +90,9 @@ CONFIG = {
         "thorough": {'checks': 500000, 'shards': 14, 'timeout': 3600, 'shrinktime': '60s'},
         "assumptions": ['try bodies never assign variables declared outside the try (value rollback is unspecified)', 'the text of the caught error is never printed (only isset of the catch variable)'],
     },
+    'C12': {
+        "quick": {'checks': 12000, 'shards': 4, 'timeout': 900},
+        "thorough": {'checks': 500000, 'shards': 14, 'timeout': 3600, 'shrinktime': '60s'},
+        "assumptions": ['errors raised inside built-in or user functions only need to be errors (no position check)', "for 'SafeWriter not last' the failing action itself may already have emitted the writer's bytes", 'message text is never compared, only the ("file":line) position'],
+    },
 }
